@@ -1,69 +1,95 @@
 (* Every op of the generated domain (op_ok) preserves the structural invariant (Tree, Ctl) and the
-   delivery invariant I4 (DInv: a cancelled hosted scope that a live task reaches has its delivery scheduled). *)
-From AV Require Import Base Machine ScopeFrames DeliverInv TreeInv DeliverAlive.
+   delivery invariant I4 (DInv), and respects the potential of C05 (pstep: the cancel counter of a task minus
+   the debts of the scopes it hosts never decreases and is constant for root tasks). *)
+From AV Require Import Base Machine ScopeFrames DeliverInv TreeInv DeliverAlive PotentialInv.
 
-(* ---------------- neutral steps: same tree, only the listed tasks' records change, no new task-done callback,
-   the delivery invariant is carried along *)
-Definition nstep (l : list tid) (a b : st) : Prop :=
+(* ---------------- neutral steps: same tree, only the listed tasks' records change, no new task-done callback;
+   the delivery invariant and the potential are carried along *)
+Definition nstep0 (l : list tid) (a b : st) : Prop :=
   treq a b /\ tcb l a b /\ rq_td a b /\ (TreeL a -> DInv a -> DInv b).
 
-Lemma ns_refl l a : nstep l a a.
+Definition nstep (l : list tid) (a b : st) : Prop := nstep0 l a b /\ (Tree a -> pstep a b).
+
+Lemma ns0_refl l a : nstep0 l a a.
 Proof. split; [apply treq_refl|split; [apply tcb_refl|split; [apply rq_td_refl|auto]]]. Qed.
 
-Lemma ns_trans l a b c : nstep l a b -> nstep l b c -> nstep l a c.
+Lemma ns0_trans l a b c : nstep0 l a b -> nstep0 l b c -> nstep0 l a c.
 Proof.
   intros [A1 [A2 [A3 A4]]] [B1 [B2 [B3 B4]]].
   split; [eapply treq_trans; eauto|split; [eapply tcb_trans; eauto|split; [eapply rq_td_trans; eauto|]]].
   intros T I. apply B4; [eapply TreeL_treq; eauto|auto].
 Qed.
 
-Lemma ns_dq l a b : treq a b -> tcb l a b -> rq_td a b -> dq a b -> nstep l a b.
+Lemma ns_refl l a : nstep l a a.
+Proof. split; [apply ns0_refl|intros _; apply pstep_refl]. Qed.
+
+Lemma ns_trans l a b c : nstep l a b -> nstep l b c -> nstep l a c.
+Proof.
+  intros [A PA] [B PB]. split; [eapply ns0_trans; eauto|].
+  intros T. assert (K : treq a b) by apply A.
+  apply (pstep_trans a b c); [now apply PA|apply PB; eapply Tree_treq; eauto|now apply same_alloc_group].
+Qed.
+
+Lemma ns0_dq l a b : treq a b -> tcb l a b -> rq_td a b -> dq a b -> nstep0 l a b.
 Proof.
   intros K1 K2 K3 Q. split; [exact K1|split; [exact K2|split; [exact K3|]]].
   intros _ I. eapply DInv_dq; eauto.
 Qed.
 
-Lemma ns_kdq l a b : kframe a b -> scopes b = scopes a -> nstep l a b.
-Proof.
-  intros K E. apply ns_dq; [now apply kframe_treq|now apply tcb_kframe|now apply rq_td_kframe|now apply dq_of_kframe].
-Qed.
+Lemma ns_dq l a b : treq a b -> tcb l a b -> rq_td a b -> dq a b -> inert a b -> nstep l a b.
+Proof. intros K1 K2 K3 Q In. split; [now apply ns0_dq|intros _; now apply pstep_inert]. Qed.
 
 Lemma ns_fut_complete l s f v : nstep l s (fut_complete s f v).
-Proof. apply ns_kdq; [apply kframe_fut_complete|apply fut_complete_scopes]. Qed.
+Proof.
+  apply ns_dq; [apply treq_fut_complete|apply tcb_kframe, kframe_fut_complete|apply rq_td_kframe, kframe_fut_complete|
+                apply dq_fut_complete|apply inert_fut_complete].
+Qed.
 
-Lemma ns_task_cancel l s t o : nstep l s (task_cancel s t o).
-Proof. apply ns_kdq; [apply kframe_task_cancel|apply task_cancel_scopes]. Qed.
+(* the two outside influences on the counter are neutral for everything but the potential *)
+Lemma ns0_task_cancel l s t o : nstep0 l s (task_cancel s t o).
+Proof.
+  apply ns0_dq; [apply treq_task_cancel|apply tcb_kframe, kframe_task_cancel|apply rq_td_kframe, kframe_task_cancel|
+                 apply dq_task_cancel].
+Qed.
 
-Lemma ns_task_uncancel l s t : nstep l s (task_uncancel s t).
-Proof. apply ns_kdq; [apply kframe_task_uncancel|reflexivity]. Qed.
+Lemma ns0_task_uncancel l s t : nstep0 l s (task_uncancel s t).
+Proof.
+  apply ns0_dq; [apply treq_task_uncancel|apply tcb_kframe, kframe_task_uncancel|
+                 apply rq_td_kframe, kframe_task_uncancel|apply dq_task_uncancel].
+Qed.
 
 Lemma ns_restart l s x : nstep l s (restart s x).
 Proof.
-  pose proof (kframe_restart s x) as K.
-  split; [now apply kframe_treq|split; [now apply tcb_kframe|split; [now apply rq_td_kframe|]]].
-  apply D_restart_any.
+  pose proof (kframe_restart s x) as K. split.
+  - split; [now apply kframe_treq|split; [now apply tcb_kframe|split; [now apply rq_td_kframe|]]].
+    apply D_restart_any.
+  - intros T. apply P_restart. now apply Pok_Tree.
 Qed.
 
 Lemma ns_same l a b :
   treq a b -> tasks b = tasks a -> ready b = ready a ->
-  (forall c, sc_view (scopes b c) = sc_view (scopes a c)) -> nstep l a b.
+  (forall c, sc_view (scopes b c) = sc_view (scopes a c)) ->
+  (forall c, sc_acct (scopes b c) = sc_acct (scopes a c)) -> nstep l a b.
 Proof.
-  intros K E1 E2 E3. apply ns_dq; [exact K|now apply tcb_same_tasks|now apply rq_td_same|].
-  constructor; [exact E3|intros t; now rewrite E1|intros t; now rewrite E1|intros c H; now rewrite E2].
+  intros K E1 E2 E3 E4. apply ns_dq; [exact K|now apply tcb_same_tasks|now apply rq_td_same| |].
+  - constructor; [exact E3|intros t; now rewrite E1|intros t; now rewrite E1|intros c H; now rewrite E2].
+  - constructor; [apply (tq_nscope _ _ K)|exact E4|intros t; now rewrite E1].
 Qed.
 
 Lemma ns_upd_task l s t g : In t l -> (forall k, tk_tree (g k) = tk_tree k) -> (forall k, k_done (g k) = k_done k) ->
-  nstep l s (upd_task s t g).
+  (forall k, k_ncancel (g k) = k_ncancel k) -> nstep l s (upd_task s t g).
 Proof.
-  intros Hin Hg Hd. apply ns_dq; [now apply treq_upd_task|now apply tcb_upd_task|apply rq_td_same; reflexivity|].
+  intros Hin Hg Hd Hn. apply ns_dq; [now apply treq_upd_task|now apply tcb_upd_task|apply rq_td_same; reflexivity| |
+                                      now apply inert_upd_task].
   apply dq_upd_task. intros k. split; [|apply Hd]. pose proof (Hg k) as E. unfold tk_tree in E. now inversion E.
 Qed.
 
 Lemma ns_upd_scope l s c g : (forall k, sc_tree (g k) = sc_tree k) -> (forall k, sc_view (g k) = sc_view k) ->
-  nstep l s (upd_scope s c g).
+  (forall k, sc_acct (g k) = sc_acct k) -> nstep l s (upd_scope s c g).
 Proof.
-  intros Hg Hv. apply ns_same; [now apply treq_upd_scope|reflexivity|reflexivity|].
-  intros x. cbn. unfold upd. destruct (Nat.eqb_spec x c); [subst; apply Hv|reflexivity].
+  intros Hg Hv Ha. apply ns_same; [now apply treq_upd_scope|reflexivity|reflexivity| |].
+  - intros x. cbn. unfold upd. destruct (Nat.eqb_spec x c); [subst; apply Hv|reflexivity].
+  - intros x. cbn. unfold upd. destruct (Nat.eqb_spec x c); [subst; apply Ha|reflexivity].
 Qed.
 
 Lemma D_shield_true s c : DInv s -> DInv (upd_scope s c (sc_shield true)).
@@ -87,169 +113,212 @@ Qed.
 
 Lemma ns_shield_true l s c : nstep l s (upd_scope s c (sc_shield true)).
 Proof.
-  split; [apply treq_upd_scope; intros k; reflexivity|].
-  split; [apply tcb_same_tasks; reflexivity|]. split; [apply rq_td_same; reflexivity|].
-  intros _. apply D_shield_true.
+  split.
+  - split; [apply treq_upd_scope; intros k; reflexivity|].
+    split; [apply tcb_same_tasks; reflexivity|]. split; [apply rq_td_same; reflexivity|].
+    intros _. apply D_shield_true.
+  - intros _. apply pstep_inert, inert_upd_scope. intros k; reflexivity.
 Qed.
 
 Lemma ns_upd_group l s c g : (forall k, gr_tree (g k) = gr_tree k) -> nstep l s (upd_group s c g).
-Proof. intros Hg. apply ns_same; [now apply treq_upd_group|reflexivity|reflexivity|reflexivity]. Qed.
+Proof. intros Hg. apply ns_same; [now apply treq_upd_group|reflexivity|reflexivity|reflexivity|reflexivity]. Qed.
 
 Lemma ns_set_running l s v : nstep l s (set_running s v).
-Proof. apply ns_same; [apply treq_set_running|reflexivity|reflexivity|reflexivity]. Qed.
+Proof. apply ns_same; [apply treq_set_running|reflexivity|reflexivity|reflexivity|reflexivity]. Qed.
 
 Lemma ns_begin_act l s t : In t l -> nstep l s (begin_act s t).
 Proof.
-  intros Hin. apply ns_dq; [apply treq_begin_act|now apply tcb_begin_act|apply rq_td_same; reflexivity|apply dq_begin_act].
+  intros Hin. apply ns_dq; [apply treq_begin_act|now apply tcb_begin_act|apply rq_td_same; reflexivity|
+                            apply dq_begin_act|apply inert_begin_act].
 Qed.
 
 Lemma ns_ret l s t r : In t l -> nstep l s (fst (ret_to_puppet s t r)).
 Proof.
   intros Hin. apply ns_dq; [apply treq_ret_to_puppet|now apply tcb_ret_to_puppet|apply rq_td_ret_to_puppet|
-                            apply dq_ret_to_puppet].
+                            apply dq_ret_to_puppet|apply inert_ret_to_puppet].
 Qed.
 
 Lemma ns_park l s t : In t l -> nstep l s (park s t).
-Proof. intros Hin. apply ns_dq; [apply treq_park|now apply tcb_park|apply rq_td_park|apply dq_park]. Qed.
+Proof.
+  intros Hin. apply ns_dq; [apply treq_park|now apply tcb_park|apply rq_td_park|apply dq_park|apply inert_park].
+Qed.
 
 Lemma ns_set_ctl l s t c : In t l -> nstep l s (set_ctl s t c).
-Proof. intros Hin. apply ns_upd_task; [exact Hin|intros k; reflexivity|intros k; reflexivity]. Qed.
+Proof. intros Hin. apply ns_upd_task; [exact Hin|intros k; reflexivity|intros k; reflexivity|intros k; reflexivity]. Qed.
 
 Lemma ns_bare_yield l s t : nstep l s (bare_yield s t).
 Proof.
-  apply ns_dq; [apply treq_bare_yield|apply tcb_same_tasks; reflexivity| |apply dq_call_soon].
+  apply ns_dq; [apply treq_bare_yield|apply tcb_same_tasks; reflexivity| |apply dq_call_soon|apply inert_call_soon].
   apply rq_td_call_soon. intros; discriminate.
 Qed.
 
 Lemma ns_scope_cancel l s c b : nstep l s (scope_cancel s c b).
 Proof.
-  split; [apply treq_scope_cancel|split; [apply tcb_scope_cancel|split; [apply rq_td_scope_cancel|]]].
-  apply D_scope_cancel.
+  split.
+  - split; [apply treq_scope_cancel|split; [apply tcb_scope_cancel|split; [apply rq_td_scope_cancel|]]].
+    apply D_scope_cancel.
+  - intros T. apply P_scope_cancel. now apply Pok_Tree.
 Qed.
 
 Lemma ns_cancel_timeout l s c : nstep l s (cancel_timeout s c).
 Proof.
-  apply ns_dq; [apply treq_cancel_timeout|apply tcb_cancel_timeout|apply rq_td_cancel_timeout|apply dq_cancel_timeout].
+  apply ns_dq; [apply treq_cancel_timeout|apply tcb_cancel_timeout|apply rq_td_cancel_timeout|apply dq_cancel_timeout|
+                apply inert_cancel_timeout].
 Qed.
 
 Lemma ns_scope_timeout l s c : nstep l s (scope_timeout s c).
 Proof.
-  split; [apply treq_scope_timeout|split; [apply tcb_scope_timeout|split; [apply rq_td_scope_timeout|]]].
-  apply D_scope_timeout.
+  split.
+  - split; [apply treq_scope_timeout|split; [apply tcb_scope_timeout|split; [apply rq_td_scope_timeout|]]].
+    apply D_scope_timeout.
+  - intros T. apply P_scope_timeout. now apply Pok_Tree.
 Qed.
 
 Lemma ns_new_fut l s : nstep l s (fst (new_fut s)).
-Proof. apply ns_same; [apply treq_new_fut|reflexivity|reflexivity|reflexivity]. Qed.
+Proof. apply ns_same; [apply treq_new_fut|reflexivity|reflexivity|reflexivity|reflexivity]. Qed.
 
 Lemma ns_call_at l s w x : nstep l s (fst (call_at s w x)).
-Proof. apply ns_same; [apply treq_call_at|reflexivity|reflexivity|reflexivity]. Qed.
+Proof. apply ns_same; [apply treq_call_at|reflexivity|reflexivity|reflexivity|reflexivity]. Qed.
 
 Lemma ns_suspend_on l s t f : In t l -> nstep l s (suspend_on s t f).
 Proof.
-  intros Hin. apply ns_dq; [apply treq_suspend_on|now apply tcb_suspend_on|apply rq_td_suspend_on|apply dq_suspend_on].
+  intros Hin. apply ns_dq; [apply treq_suspend_on|now apply tcb_suspend_on|apply rq_td_suspend_on|apply dq_suspend_on|
+                            apply inert_suspend_on].
 Qed.
 
 Lemma ns_event_set l s e : nstep l s (event_set s e).
-Proof. apply ns_dq; [apply treq_event_set|apply tcb_event_set|apply rq_td_event_set|apply dq_event_set]. Qed.
+Proof.
+  apply ns_dq; [apply treq_event_set|apply tcb_event_set|apply rq_td_event_set|apply dq_event_set|apply inert_event_set].
+Qed.
 
 Lemma ns_event_wait l s t e : In t l -> nstep l s (fst (event_wait s t e)).
 Proof.
-  intros Hin. apply ns_dq; [apply treq_event_wait|now apply tcb_event_wait|apply rq_td_event_wait|apply dq_event_wait].
+  intros Hin. apply ns_dq; [apply treq_event_wait|now apply tcb_event_wait|apply rq_td_event_wait|apply dq_event_wait|
+                            apply inert_event_wait].
 Qed.
 
 Lemma ns_event_unwait l s e fo : nstep l s (event_unwait s e fo).
 Proof.
-  apply ns_dq; [apply treq_event_unwait|apply tcb_event_unwait| |apply dq_event_unwait].
+  apply ns_dq; [apply treq_event_unwait|apply tcb_event_unwait| |apply dq_event_unwait|apply inert_event_unwait].
   destruct fo; apply rq_td_same; reflexivity.
 Qed.
 
 Lemma ns_incoming l s t fo : In t l -> nstep l s (fst (incoming s t fo)).
 Proof.
-  intros Hin. apply ns_dq; [apply treq_incoming|now apply tcb_incoming|apply rq_td_same; reflexivity|apply dq_incoming].
+  intros Hin. apply ns_dq; [apply treq_incoming|now apply tcb_incoming|apply rq_td_same; reflexivity|apply dq_incoming|
+                            apply inert_incoming].
 Qed.
 
 Lemma ns_timer_cancel l s tm : nstep l s (timer_cancel s tm).
 Proof.
-  apply ns_dq; [apply treq_timer_cancel|apply tcb_same_tasks; reflexivity|apply rq_td_timer_cancel|apply dq_timer_cancel].
+  apply ns_dq; [apply treq_timer_cancel|apply tcb_same_tasks; reflexivity|apply rq_td_timer_cancel|apply dq_timer_cancel|
+                apply inert_timer_cancel].
 Qed.
 
 Lemma ns_tick l s dt : nstep l s (tick s dt).
-Proof. apply ns_dq; [apply treq_tick|apply tcb_same_tasks; reflexivity|apply rq_td_tick|apply dq_tick]. Qed.
+Proof.
+  apply ns_dq; [apply treq_tick|apply tcb_same_tasks; reflexivity|apply rq_td_tick|apply dq_tick|apply inert_tick].
+Qed.
 
 Lemma ns_remove_first l s h : (forall c, h <> HDeliver c) -> nstep l s (set_ready s (remove_first h (ready s))).
 Proof.
   intros Hh. apply ns_dq; [apply treq_set_ready|apply tcb_same_tasks; reflexivity|apply rq_td_remove_first|
-                           now apply dq_remove_first].
+                           now apply dq_remove_first|apply inert_same; reflexivity].
 Qed.
 
 Lemma ns_td_tail l s3 k g t : nstep l s3 (td_tail s3 k g t).
 Proof.
+  split.
+  2:{ intros T. apply P_td_tail. now apply Pok_Tree. }
   unfold td_tail.
   set (s4 := match g_fut (groups s3 g) with
              | Some f => match g_tasks (groups s3 g) with [] => fut_complete s3 f (FRes 0) | _ :: _ => s3 end
              | None => s3 end).
-  assert (K4 : nstep l s3 s4).
-  { unfold s4. destruct (g_fut (groups s3 g)); [|apply ns_refl].
-    destruct (g_tasks (groups s3 g)); [apply ns_fut_complete|apply ns_refl]. }
+  assert (K4 : nstep0 l s3 s4).
+  { unfold s4. destruct (g_fut (groups s3 g)); [|apply ns0_refl].
+    destruct (g_tasks (groups s3 g)); [apply ns_fut_complete|apply ns0_refl]. }
   clearbody s4.
-  assert (Kx : forall e, nstep l s4 (upd_group s4 g (fun x => gr_excs (g_excs x ++ [(t, e)]) x))).
+  assert (Kx : forall e, nstep0 l s4 (upd_group s4 g (fun x => gr_excs (g_excs x ++ [(t, e)]) x))).
   { intros e. apply ns_upd_group. intros x; reflexivity. }
-  assert (Kc : forall a, nstep l a (if eff_cancelled a (g_scope (groups a g)) then a
-                                    else scope_cancel a (g_scope (groups a g)) false)).
-  { intros a. destruct (eff_cancelled a _); [apply ns_refl|apply ns_scope_cancel]. }
-  eapply ns_trans; [exact K4|].
+  assert (Kc : forall a, nstep0 l a (if eff_cancelled a (g_scope (groups a g)) then a
+                                     else scope_cancel a (g_scope (groups a g)) false)).
+  { intros a. destruct (eff_cancelled a _); [apply ns0_refl|apply ns_scope_cancel]. }
+  assert (Kf : forall f v, nstep0 l s4 (fut_complete s4 f v)) by (intros f v; apply ns_fut_complete).
+  eapply ns0_trans; [exact K4|].
   destruct (k_done k) as [[v|e|e]|].
-  - destruct (k_startfut k) as [f|]; [|apply ns_refl].
-    destruct (f_st (futs s4 f)); try apply ns_refl. apply ns_fut_complete.
+  - destruct (k_startfut k) as [f|]; [|apply ns0_refl].
+    destruct (f_st (futs s4 f)); try apply ns0_refl. apply Kf.
   - destruct (k_startfut k) as [f|].
     + destruct (f_st (futs s4 f)).
-      * apply ns_fut_complete.
-      * destruct (is_cancel e); [apply Kc|]. eapply ns_trans; [apply Kx|apply Kc].
-      * destruct (is_cancel e); [apply Kc|]. eapply ns_trans; [apply Kx|apply Kc].
-      * destruct (is_cancel e); [apply ns_refl|]. eapply ns_trans; [apply Kx|apply Kc].
-    + destruct (is_cancel e); [apply Kc|]. eapply ns_trans; [apply Kx|apply Kc].
+      * apply Kf.
+      * destruct (is_cancel e); [apply Kc|]. eapply ns0_trans; [apply Kx|apply Kc].
+      * destruct (is_cancel e); [apply Kc|]. eapply ns0_trans; [apply Kx|apply Kc].
+      * destruct (is_cancel e); [apply ns0_refl|]. eapply ns0_trans; [apply Kx|apply Kc].
+    + destruct (is_cancel e); [apply Kc|]. eapply ns0_trans; [apply Kx|apply Kc].
   - destruct (k_startfut k) as [f|].
     + destruct (f_st (futs s4 f)).
-      * apply ns_fut_complete.
-      * destruct (is_cancel e); [apply Kc|]. eapply ns_trans; [apply Kx|apply Kc].
-      * destruct (is_cancel e); [apply Kc|]. eapply ns_trans; [apply Kx|apply Kc].
-      * destruct (is_cancel e); [apply ns_refl|]. eapply ns_trans; [apply Kx|apply Kc].
-    + destruct (is_cancel e); [apply Kc|]. eapply ns_trans; [apply Kx|apply Kc].
-  - destruct (k_startfut k) as [f|]; [|apply ns_refl].
-    destruct (f_st (futs s4 f)); try apply ns_refl. apply ns_fut_complete.
+      * apply Kf.
+      * destruct (is_cancel e); [apply Kc|]. eapply ns0_trans; [apply Kx|apply Kc].
+      * destruct (is_cancel e); [apply Kc|]. eapply ns0_trans; [apply Kx|apply Kc].
+      * destruct (is_cancel e); [apply ns0_refl|]. eapply ns0_trans; [apply Kx|apply Kc].
+    + destruct (is_cancel e); [apply Kc|]. eapply ns0_trans; [apply Kx|apply Kc].
+  - destruct (k_startfut k) as [f|]; [|apply ns0_refl].
+    destruct (f_st (futs s4 f)); try apply ns0_refl. apply Kf.
 Qed.
 
-(* ---------------- Run: the structural run of TreeInv plus the delivery invariant ---------------- *)
-Definition Run (l : list tid) (a b : st) : Prop := TreeInv.Run l a b /\ (Tree a -> DInv a -> DInv b).
+(* ---------------- Run: the structural run of TreeInv plus the delivery invariant and the potential ---------------- *)
+Definition Run0 (l : list tid) (a b : st) : Prop := TreeInv.Run l a b /\ (Tree a -> DInv a -> DInv b).
+Definition Run (l : list tid) (a b : st) : Prop := Run0 l a b /\ (Tree a -> pstep a b).
 
 Lemma run_refl l s : Tree s -> Run l s s.
-Proof. intros T. split; [|auto]. split; [exact T|split; [apply creq_refl|apply rq_td_refl]]. Qed.
+Proof.
+  intros T. split; [|intros _; apply pstep_refl]. split; [|auto].
+  split; [exact T|split; [apply creq_refl|apply rq_td_refl]].
+Qed.
 
 Lemma run_tree l a b : Run l a b -> Tree b.
 Proof. intros H. apply H. Qed.
 
-Lemma run_trans l a b c : Run l a b -> Run l b c -> Run l a c.
+Lemma run0_trans l a b c : Run0 l a b -> Run0 l b c -> Run0 l a c.
 Proof.
   intros [[Tb [Q1 R1]] D1] [[T [Q2 R2]] D2]. split.
   - split; [exact T|split; [eapply creq_trans; eauto|eapply rq_td_trans; eauto]].
   - intros Ta I. apply D2; [exact Tb|now apply D1].
 Qed.
 
-Lemma run_n l a b : Tree a -> nstep l a b -> Run l a b.
+Lemma run_trans l a b c : Run l a b -> Run l b c -> Run l a c.
+Proof.
+  intros [R1 P1] [R2 P2]. split; [eapply run0_trans; eauto|].
+  intros Ta. destruct R1 as [[Tb [Q1 _]] _].
+  apply (pstep_trans a b c); [now apply P1|now apply P2|].
+  intros t A. split; [exact (cq_alloc_t _ _ _ Q1 t A)|apply (cq_ids _ _ _ Q1 t A)].
+Qed.
+
+Lemma run0_n l a b : Tree a -> nstep0 l a b -> Run0 l a b.
 Proof.
   intros T [K1 [K2 [K3 K4]]]. split.
   - eapply run_treq; eauto. split; [exact T|split; [apply creq_refl|apply rq_td_refl]].
   - intros _. apply K4. now apply Tree_TreeL.
 Qed.
 
+Lemma run_n l a b : Tree a -> nstep l a b -> Run l a b.
+Proof. intros T [K P]. split; [now apply run0_n|exact P]. Qed.
+
 Lemma run_lift l s0 s s' :
-  Run l s0 s -> (TreeInv.Run l s0 s -> TreeInv.Run l s0 s') -> (Tree s -> DInv s -> DInv s') -> Run l s0 s'.
+  Run l s0 s -> (TreeInv.Run l s0 s -> TreeInv.Run l s0 s') -> (Tree s -> DInv s -> DInv s') ->
+  (Tree s -> pstep s s') -> Run l s0 s'.
 Proof.
-  intros [R D] HR HD. split; [now apply HR|]. intros T0 I0. apply HD; [apply R|now apply D].
+  intros [[R D] P] HR HD HP. split.
+  - split; [now apply HR|]. intros T0 I0. apply HD; [apply R|now apply D].
+  - intros T0. destruct R as [Ts [Q _]].
+    apply (pstep_trans s0 s s'); [now apply P|now apply HP|].
+    intros t A. split; [exact (cq_alloc_t _ _ _ Q t A)|apply (cq_ids _ _ _ Q t A)].
 Qed.
 
 Lemma run_new_scope l s0 s d sh : Run l s0 s -> Run l s0 (fst (new_scope s d sh)).
-Proof. intros R. apply (run_lift l s0 s _ R); [apply TreeInv.run_new_scope|apply D_new_scope]. Qed.
+Proof.
+  intros R. apply (run_lift l s0 s _ R); [apply TreeInv.run_new_scope|apply D_new_scope|apply P_new_scope].
+Qed.
 
 Lemma run_enter l s0 s c t :
   Run l s0 s -> In t l -> alloc_t s t -> k_tdran (tasks s t) = false -> alloc_s s c ->
@@ -265,6 +334,9 @@ Proof.
   - intros T I. destruct (s_active (scopes s c)) eqn:Ic.
     + now rewrite (scope_enter_fail s c t Ic).
     + apply D_enter; auto.
+  - intros T. destruct (s_active (scopes s c)) eqn:Ic.
+    + rewrite (scope_enter_fail s c t Ic). apply pstep_refl.
+    + apply P_enter; auto.
 Qed.
 
 Lemma run_exit l s0 s c t exc :
@@ -280,6 +352,9 @@ Proof.
   - intros T I. destruct (exit_ok_dec s c t) as [Hok|Hno].
     + destruct (Hside Hok) as [NC [NT NG]]. now apply D_exit.
     + now rewrite (scope_exit_fail s c t exc Hno).
+  - intros T. destruct (exit_ok_dec s c t) as [Hok|Hno].
+    + destruct (Hside Hok) as [NC [NT NG]]. now apply P_exit.
+    + rewrite (scope_exit_fail s c t exc Hno). apply pstep_refl.
 Qed.
 
 Lemma run_spawn l s0 s g sf :
@@ -289,18 +364,19 @@ Proof.
   intros R Hin Ag Ha. apply (run_lift l s0 s _ R).
   - intros R0. now apply TreeInv.run_spawn.
   - intros T I. now apply D_spawn.
+  - intros T. now apply P_spawn.
 Qed.
 
 Lemma run_group_new l s0 s : Run l s0 s -> Run l s0 (gnew_struct s).
 Proof.
-  intros R. apply (run_lift l s0 s _ R); [apply TreeInv.run_group_new|].
+  intros R. apply (run_lift l s0 s _ R); [apply TreeInv.run_group_new| |apply P_group_new].
   intros T I. apply (DInv_dq (fst (new_scope s None false))); [now apply D_new_scope|].
   apply dq_same; [reflexivity|intros t; now split|auto].
 Qed.
 
 Lemma run_new_root l s0 s : Run l s0 s -> In (ntask s) l -> Run l s0 (root_struct s).
 Proof.
-  intros R Hin. apply (run_lift l s0 s _ R); [intros R0; now apply TreeInv.run_new_root|].
+  intros R Hin. apply (run_lift l s0 s _ R); [intros R0; now apply TreeInv.run_new_root| |apply P_new_root].
   intros T [Al Hd]. destruct (Tree_fresh_task s (ntask s) T (le_n _)) as [Fc _].
   assert (Ek : forall x, x <> ntask s -> tasks (root_struct s) x = tasks s x).
   { intros x Hx. unfold root_struct. cbn. unfold upd. destruct (Nat.eqb_spec x (ntask s)); [contradiction|reflexivity]. }
@@ -343,7 +419,9 @@ Qed.
 Definition op_ok (s : st) (o : op) : bool :=
   match o with
   | AEnter t c => Nat.ltb 0 c && Nat.ltb c (nscope s) && pubs s c
-  | AExit t c _ => pubs s c
+  | AExit t c _ =>
+      pubs s c ||
+      negb (s_active (scopes s c) && opt_eqb (s_host (scopes s c)) t && opt_eqb (k_cur (tasks s t)) c)
   | AGroupEnter t g => Nat.ltb 0 g && Nat.ltb g (ngroup s)
   | AFinish t _ =>
       match k_group (tasks s t) with
@@ -366,6 +444,24 @@ Lemma si_tree s : SInv s -> Tree s. Proof. intros H. apply H. Qed.
 Lemma si_ctl s : SInv s -> Ctl s. Proof. intros H. apply H. Qed.
 Lemma si_dinv s : SInv s -> DInv s. Proof. intros H. apply H. Qed.
 
+(* the outcome of an op that is neither a native cancel nor an explicit uncancel *)
+Definition ids (s s' : st) : Prop :=
+  forall t, alloc_t s t -> alloc_t s' t /\ k_group (tasks s' t) = k_group (tasks s t).
+
+Definition GStep (s s' : st) : Prop := (SInv s' /\ pstep s s') /\ ids s s'.
+
+Lemma gstep_refl s : SInv s -> GStep s s.
+Proof. intros I. split; [split; [exact I|apply pstep_refl]|intros t A; now split]. Qed.
+
+Lemma ids_creq l s s' : creq l s s' -> ids s s'.
+Proof. intros Q t A. split; [exact (cq_alloc_t _ _ _ Q t A)|apply (cq_ids _ _ _ Q t A)]. Qed.
+
+Lemma ids_trans a b c : ids a b -> ids b c -> ids a c.
+Proof. intros H1 H2 t A. destruct (H1 t A) as [Ab E1]. destruct (H2 t Ab) as [Ac E2]. split; [exact Ac|congruence]. Qed.
+
+Lemma ids_treq a b : treq a b -> ids a b.
+Proof. intros K t A. now apply same_alloc_group. Qed.
+
 Lemma idle_spec s t : idle s t = true -> k_ctl (tasks s t) = CIdle /\ alloc_t s t.
 Proof.
   unfold idle. destruct (k_ctl (tasks s t)); try discriminate.
@@ -380,15 +476,16 @@ Proof.
 Qed.
 
 (* final assembly for an op whose only touched task is the actor, which does not finish *)
-Lemma sinv_actor s t s' :
-  SInv s -> alloc_t s t -> k_ctl (tasks s t) <> CDone -> Run [t] s s' ->
+Lemma sinv_actor0 s t s' :
+  SInv s -> alloc_t s t -> k_ctl (tasks s t) <> CDone -> Run0 [t] s s' ->
   k_ctl (tasks s' t) <> CNew -> k_ctl (tasks s' t) <> CDone ->
   (forall g c e, k_ctl (tasks s' t) = CAexitCk g c e ->
      k_cur (tasks s' t) = Some c /\ k_waiter (tasks s' t) = None) ->
   (forall c, ctl_scope (k_ctl (tasks s' t)) = Some c -> alloc_s s' c /\ notg s' c) ->
   SInv s'.
 Proof.
-  intros [[T C] Dv] A N [[T' [Q R]] Dd] N1 N2 Hck Hsc. split; [split; [exact T'|]|now apply Dd].
+  intros [[T C] Dv] A N [[T' [Q R]] Dd] N1 N2 Hck Hsc.
+  split; [split; [exact T'|]|now apply Dd].
   apply (Ctl_step [t] s s' C Q). intros t' [<-|[]].
   pose proof (cq_alloc_t _ _ _ Q t A) as A'.
   refine (conj _ (conj _ _)).
@@ -403,6 +500,18 @@ Proof.
   - intros Hin. apply R in Hin. destruct (c_td _ C t Hin) as [_ E]. contradiction.
 Qed.
 
+Lemma sinv_actor s t s' :
+  SInv s -> alloc_t s t -> k_ctl (tasks s t) <> CDone -> Run [t] s s' ->
+  k_ctl (tasks s' t) <> CNew -> k_ctl (tasks s' t) <> CDone ->
+  (forall g c e, k_ctl (tasks s' t) = CAexitCk g c e ->
+     k_cur (tasks s' t) = Some c /\ k_waiter (tasks s' t) = None) ->
+  (forall c, ctl_scope (k_ctl (tasks s' t)) = Some c -> alloc_s s' c /\ notg s' c) ->
+  GStep s s'.
+Proof.
+  intros I A N [R0 Pp] N1 N2 Hck Hsc.
+  split; [split; [now apply (sinv_actor0 s t s')|apply Pp, I]|apply (ids_creq [t]), R0].
+Qed.
+
 Lemma park_ctl s t : k_ctl (tasks (park s t) t) = CIdle.
 Proof. unfold park, new_fut. cbn. unfold upd. now rewrite Nat.eqb_refl. Qed.
 
@@ -410,7 +519,7 @@ Lemma ret_ctl s t r : k_ctl (tasks (fst (ret_to_puppet s t r)) t) = CIdle.
 Proof. unfold ret_to_puppet. cbn [fst tasks set_running]. apply park_ctl. Qed.
 
 Lemma sinv_ret s t s1 r :
-  SInv s -> alloc_t s t -> k_ctl (tasks s t) <> CDone -> Run [t] s s1 -> SInv (fst (ret_to_puppet s1 t r)).
+  SInv s -> alloc_t s t -> k_ctl (tasks s t) <> CDone -> Run [t] s s1 -> GStep s (fst (ret_to_puppet s1 t r)).
 Proof.
   intros I A N R.
   assert (R' : Run [t] s (fst (ret_to_puppet s1 t r))).
@@ -419,7 +528,7 @@ Proof.
 Qed.
 
 Lemma sinv_park s t s1 :
-  SInv s -> alloc_t s t -> k_ctl (tasks s t) <> CDone -> Run [t] s s1 -> SInv (set_running (park s1 t) None).
+  SInv s -> alloc_t s t -> k_ctl (tasks s t) <> CDone -> Run [t] s s1 -> GStep s (set_running (park s1 t) None).
 Proof.
   intros I A N R.
   assert (R' : Run [t] s (set_running (park s1 t) None)).
@@ -434,7 +543,7 @@ Lemma sinv_blocked s t s1 c :
   c <> CNew -> c <> CDone ->
   (forall g x e, c = CAexitCk g x e -> k_cur (tasks s1 t) = Some x /\ k_waiter (tasks s1 t) = None) ->
   (forall x, ctl_scope c = Some x -> alloc_s s1 x /\ notg s1 x) ->
-  SInv (fst (blocked (set_ctl s1 t c))).
+  GStep s (fst (blocked (set_ctl s1 t c))).
 Proof.
   intros I A N R N1 N2 Hck Hsc. cbn [fst blocked].
   assert (R' : Run [t] s (set_running (set_ctl s1 t c) None)).
@@ -559,7 +668,7 @@ Proof.
   assert (R2 : Run l s (upd_group s1 g (gr_left true))).
   { eapply run_trans; [exact R1|]. apply run_n; [apply R1|]. apply ns_upd_group. intros k; reflexivity. }
   destruct x; cbn [fst]; try exact R2.
-  eapply run_trans; [exact R2|]. apply run_n; [apply R2|]. apply ns_upd_task; [exact Hin|intros k; reflexivity|intros k; reflexivity].
+  eapply run_trans; [exact R2|]. apply run_n; [apply R2|]. apply ns_upd_task; [exact Hin|intros k; reflexivity|intros k; reflexivity|intros k; reflexivity].
 Qed.
 
 Lemma run_aexit_finish l s t g exc :
@@ -583,14 +692,14 @@ Lemma run_actor_facts s0 s t :
   Ctl s0 -> alloc_t s0 t -> k_ctl (tasks s0 t) <> CDone -> Run [t] s0 s ->
   alloc_t s t /\ k_tdran (tasks s t) = false.
 Proof.
-  intros C A N [[_ [Q _]] _]. split; [exact (cq_alloc_t _ _ _ Q t A)|].
+  intros C A N [[[_ [Q _]] _] _]. split; [exact (cq_alloc_t _ _ _ Q t A)|].
   destruct (cq_ids _ _ _ Q t A) as [_ [_ E]]. rewrite E. now apply not_tdran_of_ctl.
 Qed.
 
 Lemma sinv_wof s0 t s g ws exc :
   SInv s0 -> alloc_t s0 t -> k_ctl (tasks s0 t) <> CDone -> Run [t] s0 s ->
   (forall w, ws = Some w -> alloc_s s w /\ notg s w) ->
-  SInv (fst (aexit_wait_or_finish s t g ws exc)).
+  GStep s0 (fst (aexit_wait_or_finish s t g ws exc)).
 Proof.
   intros I A N R Hw. pose proof (run_tree _ _ _ R) as T.
   destruct (run_actor_facts s0 s t (si_ctl _ I) A N R) as [As Ds].
@@ -618,7 +727,7 @@ Proof.
       apply (sinv_ret s0 t s2 r I A N). eapply run_trans; eauto.
   - (* wait for the children *)
     assert (Tail : forall a w, Run [t] s0 a -> alloc_s a w /\ notg a w ->
-              SInv (fst (let '(s1, f) := new_fut a in
+              GStep s0 (fst (let '(s1, f) := new_fut a in
                          blocked (set_ctl (suspend_on (upd_group s1 g (gr_fut (Some f))) t f) t
                                           (CAexitWait g w exc))))).
     { intros a w Ra Ok. unfold new_fut. cbv zeta.
@@ -658,13 +767,13 @@ Section PuppetOp.
   Proof. unfold sb, begin_act. cbn. unfold upd. now rewrite Nat.eqb_refl. Qed.
 
   (* ops of the shape: begin; neutral steps; return to the puppet *)
-  Lemma po_simple s1 r : nstep [t] sb s1 -> SInv (fst (ret_to_puppet s1 t r)).
+  Lemma po_simple s1 r : nstep [t] sb s1 -> GStep s (fst (ret_to_puppet s1 t r)).
   Proof.
     intros K. apply (sinv_ret s t s1 r I po_A po_N).
     eapply run_trans; [apply po_Rb|]. apply run_n; [apply po_Tb|exact K].
   Qed.
 
-  Lemma po_run s1 r : Run [t] sb s1 -> SInv (fst (ret_to_puppet s1 t r)).
+  Lemma po_run s1 r : Run [t] sb s1 -> GStep s (fst (ret_to_puppet s1 t r)).
   Proof.
     intros R. apply (sinv_ret s t s1 r I po_A po_N). eapply run_trans; [apply po_Rb|exact R].
   Qed.
@@ -672,18 +781,18 @@ Section PuppetOp.
   Lemma po_blocked s1 c : Run [t] sb s1 -> c <> CNew -> c <> CDone ->
     (forall g x e, c = CAexitCk g x e -> k_cur (tasks s1 t) = Some x /\ k_waiter (tasks s1 t) = None) ->
     (forall x, ctl_scope c = Some x -> alloc_s s1 x /\ notg s1 x) ->
-    SInv (fst (blocked (set_ctl s1 t c))).
+    GStep s (fst (blocked (set_ctl s1 t c))).
   Proof.
     intros R. apply (sinv_blocked s t s1 c I po_A po_N). eapply run_trans; [apply po_Rb|exact R].
   Qed.
 
-  Lemma po_new_scope d sh : SInv (fst (puppet_op s t (ANewScope t d sh))).
+  Lemma po_new_scope d sh : GStep s (fst (puppet_op s t (ANewScope t d sh))).
   Proof.
     unfold puppet_op. fold sb. cbn [new_scope]. unfold new_scope. cbv zeta.
     apply po_run. apply (run_new_scope [t] sb sb d sh). apply run_refl, po_Tb.
   Qed.
 
-  Lemma po_enter c : op_ok s (AEnter t c) = true -> SInv (fst (puppet_op s t (AEnter t c))).
+  Lemma po_enter c : op_ok s (AEnter t c) = true -> GStep s (fst (puppet_op s t (AEnter t c))).
   Proof.
     cbn [op_ok]. rewrite !andb_true_iff, !Nat.ltb_lt. intros [[P1 P2] P3].
     destruct (pubs_spec s c P3) as [Ng Nh].
@@ -698,7 +807,7 @@ Section PuppetOp.
     destruct (scope_enter sb c t) as [s1 e]. cbn [fst] in R. now apply po_run.
   Qed.
 
-  Lemma po_failat d sh : SInv (fst (puppet_op s t (AFailAt t d sh))).
+  Lemma po_failat d sh : GStep s (fst (puppet_op s t (AFailAt t d sh))).
   Proof.
     unfold puppet_op. fold sb. unfold new_scope. cbv zeta.
     destruct po_facts as [Ab Db].
@@ -706,30 +815,43 @@ Section PuppetOp.
     destruct (scope_enter _ (nscope sb) t) as [s2 e]. cbn [fst] in R. now apply po_run.
   Qed.
 
-  Lemma po_exit c fl : op_ok s (AExit t c fl) = true -> SInv (fst (puppet_op s t (AExit t c fl))).
+  Lemma po_exit c fl : op_ok s (AExit t c fl) = true -> GStep s (fst (puppet_op s t (AExit t c fl))).
   Proof.
-    cbn [op_ok]. intros P3. destruct (pubs_spec s c P3) as [Ng _].
-    unfold puppet_op. fold sb.
-    assert (Ngb : notg sb c) by (apply (tq_notg _ _ (treq_begin_act s t)); exact Ng).
+    cbn [op_ok]. intros P3. unfold puppet_op. fold sb.
+    assert (Side : exit_ok sb c t ->
+              (forall x, ~ In x (s_children (scopes sb c))) /\
+              (forall t', In t' (s_tasks (scopes sb c)) -> t' = t) /\
+              (forall g, alloc_g sb g -> g_scope (groups sb g) = c -> g_tasks (groups sb g) = [])).
+    { intros Hok. apply orb_true_iff in P3. destruct P3 as [P3|P3].
+      - destruct (pubs_spec s c P3) as [Ng _].
+        assert (Ngb : notg sb c) by (apply (tq_notg _ _ (treq_begin_act s t)); exact Ng).
+        apply exit_side_pub; try assumption. apply po_Tb.
+      - exfalso. destruct Hok as [Ha [Hh Hc]].
+        change (s_active (scopes s c) = true) in Ha. change (s_host (scopes s c) = Some t) in Hh.
+        assert (Hc' : k_cur (tasks s t) = Some c).
+        { rewrite <- (tq_cur _ _ (treq_begin_act s t)). exact Hc. }
+        rewrite Ha, Hh, Hc' in P3. cbn [opt_eqb] in P3. rewrite !Nat.eqb_refl in P3. discriminate. }
     assert (R : Run [t] sb (fst (scope_exit sb c t (k_held (tasks sb t))))).
-    { apply run_exit; [apply run_refl, po_Tb|apply po_Lt|]. intros Hok. apply exit_side_pub; try assumption. apply po_Tb. }
+    { apply run_exit; [apply run_refl, po_Tb|apply po_Lt|exact Side]. }
+    clear Side P3.
     destruct (scope_exit sb c t (k_held (tasks sb t))) as [s1 x]. cbn [fst] in R.
     destruct x.
     - assert (R2 : Run [t] sb (upd_task s1 t (tk_held None))).
-      { eapply run_trans; [exact R|]. apply run_n; [apply R|]. apply ns_upd_task; [apply po_Lt|intros k; reflexivity|intros k; reflexivity]. }
+      { eapply run_trans; [exact R|]. apply run_n; [apply R|].
+        apply ns_upd_task; [apply po_Lt|intros k; reflexivity|intros k; reflexivity|intros k; reflexivity]. }
       destruct (_ && _); now apply po_run.
     - now apply po_run.
     - now apply po_run.
   Qed.
 
-  Lemma po_cancel c : SInv (fst (puppet_op s t (ACancel t c))).
+  Lemma po_cancel c : GStep s (fst (puppet_op s t (ACancel t c))).
   Proof. unfold puppet_op. fold sb. apply po_simple. apply ns_scope_cancel. Qed.
 
-  Lemma po_setshield c b : SInv (fst (puppet_op s t (ASetShield t c b))).
+  Lemma po_setshield c b : GStep s (fst (puppet_op s t (ASetShield t c b))).
   Proof.
     unfold puppet_op. fold sb. destruct (Bool.eqb _ b); [apply po_simple, ns_refl|].
     apply po_simple.
-    split; [|split; [|split]].
+    split; [split; [|split; [|split]]|].
     - destruct b; [apply treq_upd_scope; intros k; reflexivity|].
       apply (treq_trans sb (upd_scope sb c (sc_shield false))); [apply treq_upd_scope; intros k; reflexivity|apply treq_restart].
     - destruct b; [apply tcb_same_tasks; reflexivity|].
@@ -737,9 +859,10 @@ Section PuppetOp.
     - destruct b; [apply rq_td_same; reflexivity|].
       apply (rq_td_trans sb (upd_scope sb c (sc_shield false))); [apply rq_td_same; reflexivity|apply rq_td_kframe, kframe_restart].
     - intros _ Ib. pose proof (D_set_shield sb c b po_Tb Ib) as H. destruct b; exact H.
+    - intros Tb. pose proof (P_set_shield sb c b (Pok_Tree _ Tb)) as H. destruct b; exact H.
   Qed.
 
-  Lemma po_setdeadline c d : SInv (fst (puppet_op s t (ASetDeadline t c d))).
+  Lemma po_setdeadline c d : GStep s (fst (puppet_op s t (ASetDeadline t c d))).
   Proof.
     unfold puppet_op. fold sb. apply po_simple.
     set (s1 := cancel_timeout (upd_scope sb c (sc_deadline d)) c).
@@ -748,7 +871,7 @@ Section PuppetOp.
     destruct (_ && _); [|exact K]. eapply ns_trans; [exact K|apply ns_scope_timeout].
   Qed.
 
-  Lemma po_group_new : SInv (fst (puppet_op s t (AGroupNew t))).
+  Lemma po_group_new : GStep s (fst (puppet_op s t (AGroupNew t))).
   Proof.
     unfold puppet_op. fold sb. unfold new_scope. cbv zeta.
     apply po_run. apply (run_group_new [t] sb sb). apply run_refl, po_Tb.
@@ -771,11 +894,14 @@ Qed.
 
 Lemma run_weaken l l' a b : incl l l' -> Run l a b -> Run l' a b.
 Proof.
-  intros Hi [[T [Q R]] D]. split; [|exact D]. split; [exact T|split; [now apply (creq_weaken l l')|exact R]].
+  intros Hi [[[T [Q R]] D] P]. split; [|exact P]. split; [|exact D].
+  split; [exact T|split; [now apply (creq_weaken l l')|exact R]].
 Qed.
 
 Lemma nstep_weaken l l' a b : incl l l' -> nstep l a b -> nstep l' a b.
-Proof. intros Hi [K1 [K2 K3]]. split; [exact K1|split; [now apply (tcb_weaken l l')|exact K3]]. Qed.
+Proof.
+  intros Hi [[K1 [K2 K3]] P]. split; [|exact P]. split; [exact K1|split; [now apply (tcb_weaken l l')|exact K3]].
+Qed.
 
 Lemma spawn_child_facts sa g sf :
   Tree sa ->
@@ -812,7 +938,7 @@ Lemma sinv_with_child s t sa g sf s' :
   (forall g c e, k_ctl (tasks s' t) = CAexitCk g c e ->
      k_cur (tasks s' t) = Some c /\ k_waiter (tasks s' t) = None) ->
   (forall c, ctl_scope (k_ctl (tasks s' t)) = Some c -> alloc_s s' c /\ notg s' c) ->
-  SInv s'.
+  GStep s s'.
 Proof.
   intros [[T C] Dv] A N R Ag Ha K N1 N2 Hck Hsc.
   set (tn := ntask sa). set (s2 := fst (spawn_task sa g sf)) in *.
@@ -825,7 +951,8 @@ Proof.
   assert (R' : Run [t; tn] s s').
   { eapply run_trans; [apply (run_weaken [t] _ _ _ Hi R)|]. eapply run_trans; [exact R2|].
     apply run_n; [apply R2|]. now apply (nstep_weaken [t]). }
-  destruct R' as [[T' [Q Rq]] Dd]. split; [split; [exact T'|]|now apply Dd].
+  destruct R' as [[[T' [Q Rq]] Dd] Pp]. split; [|exact (ids_creq _ _ _ Q)]. split; [|now apply Pp].
+  split; [split; [exact T'|]|now apply Dd].
   apply (Ctl_step [t; tn] s s' C Q). intros t' [<-|[<-|[]]].
   - pose proof (cq_alloc_t _ _ _ Q t A) as A'.
     refine (conj _ (conj _ _)).
@@ -837,7 +964,7 @@ Proof.
     + intros NA. contradiction.
     + intros Hin. apply Rq in Hin. destruct (c_td _ C t Hin) as [_ E]. contradiction.
   - destruct (spawn_child_facts sa g sf Ta) as [F1 [F2 [F3 [F4 [F5 F6]]]]]. fold s2 tn in F1, F2, F3, F4, F5, F6.
-    destruct K as [K1 [K2 _]].
+    destruct K as [[K1 [K2 _]] _].
     assert (Et : tk_core (tasks s' tn) = tk_core (tasks s2 tn)).
     { apply K2. intros [E|[]]. now apply Hne. }
     assert (An : alloc_t s' tn).
@@ -875,7 +1002,7 @@ Section PuppetOp2.
   Let Tb := po_Tb s t I.
   Let Lt := po_Lt t.
 
-  Lemma po_group_enter g : op_ok s (AGroupEnter t g) = true -> SInv (fst (puppet_op s t (AGroupEnter t g))).
+  Lemma po_group_enter g : op_ok s (AGroupEnter t g) = true -> GStep s (fst (puppet_op s t (AGroupEnter t g))).
   Proof.
     cbn [op_ok]. rewrite andb_true_iff, !Nat.ltb_lt. intros [P1 P2].
     unfold puppet_op. fold sb. destruct (g_entered (groups sb g)).
@@ -900,7 +1027,7 @@ Section PuppetOp2.
     apply (po_run s t I Hidle). eapply run_trans; eauto.
   Qed.
 
-  Lemma po_group_exit g : SInv (fst (puppet_op s t (AGroupExit t g))).
+  Lemma po_group_exit g : GStep s (fst (puppet_op s t (AGroupExit t g))).
   Proof.
     unfold puppet_op. fold sb.
     set (s1 := match k_held (tasks sb t) with
@@ -934,7 +1061,7 @@ Section PuppetOp2.
     - apply (sinv_wof s t s1 g None _ I A N R1). intros w E. discriminate.
   Qed.
 
-  Lemma po_spawn g : SInv (fst (puppet_op s t (ASpawn t g))).
+  Lemma po_spawn g : GStep s (fst (puppet_op s t (ASpawn t g))).
   Proof.
     unfold puppet_op. fold sb. destruct (group_active sb g) eqn:Ga; cbn [negb].
     2:{ apply (po_simple s t I Hidle). apply ns_refl. }
@@ -945,7 +1072,7 @@ Section PuppetOp2.
     apply ns_ret. exact Lt.
   Qed.
 
-  Lemma po_start g : SInv (fst (puppet_op s t (AStart t g))).
+  Lemma po_start g : GStep s (fst (puppet_op s t (AStart t g))).
   Proof.
     unfold puppet_op. fold sb. destruct (group_active sb g) eqn:Ga; cbn [negb].
     2:{ apply (po_simple s t I Hidle). apply ns_refl. }
@@ -969,7 +1096,7 @@ Section PuppetOp2.
     - cbn. unfold upd. rewrite Nat.eqb_refl. cbn. discriminate.
   Qed.
 
-  Lemma po_started v : SInv (fst (puppet_op s t (AStarted t v))).
+  Lemma po_started v : GStep s (fst (puppet_op s t (AStarted t v))).
   Proof.
     unfold puppet_op. fold sb. destruct (k_startfut (tasks sb t)) as [f|].
     - destruct (f_st (futs sb f)); apply (po_simple s t I Hidle); try apply ns_refl.
@@ -977,13 +1104,13 @@ Section PuppetOp2.
     - apply (po_simple s t I Hidle). apply ns_refl.
   Qed.
 
-  Lemma po_handle_cancel h : SInv (fst (puppet_op s t (AHandleCancel t h))).
+  Lemma po_handle_cancel h : GStep s (fst (puppet_op s t (AHandleCancel t h))).
   Proof.
     unfold puppet_op. fold sb. destruct (e_set _); apply (po_simple s t I Hidle);
       [apply ns_refl|apply ns_scope_cancel].
   Qed.
 
-  Lemma po_handle_wait h : SInv (fst (puppet_op s t (AHandleWait t h))).
+  Lemma po_handle_wait h : GStep s (fst (puppet_op s t (AHandleWait t h))).
   Proof.
     unfold puppet_op. fold sb.
     pose proof (ns_event_wait [t] sb t (k_hevent (tasks sb h)) Lt) as K.
@@ -992,13 +1119,13 @@ Section PuppetOp2.
     eapply run_trans; [exact Rb|]. apply run_n; [exact Tb|exact K].
   Qed.
 
-  Lemma po_yield : SInv (fst (puppet_op s t (AYield t))).
+  Lemma po_yield : GStep s (fst (puppet_op s t (AYield t))).
   Proof.
     unfold puppet_op. fold sb. apply (sinv_blocked s t (bare_yield sb t)); try assumption; try discriminate.
     eapply run_trans; [exact Rb|]. apply run_n; [exact Tb|apply ns_bare_yield].
   Qed.
 
-  Lemma po_ckif : SInv (fst (puppet_op s t (ACkIf t))).
+  Lemma po_ckif : GStep s (fst (puppet_op s t (ACkIf t))).
   Proof.
     unfold puppet_op. fold sb. destruct (ckif_spins _ _ _).
     - apply (sinv_blocked s t (bare_yield sb t)); try assumption; try discriminate.
@@ -1006,7 +1133,7 @@ Section PuppetOp2.
     - apply (po_simple s t I Hidle). apply ns_refl.
   Qed.
 
-  Lemma po_shieldck : SInv (fst (puppet_op s t (AShieldCk t))).
+  Lemma po_shieldck : GStep s (fst (puppet_op s t (AShieldCk t))).
   Proof.
     unfold puppet_op. fold sb. unfold new_scope. cbv zeta.
     destruct (po_facts s t I Hidle) as [Ab Db]. fold sb in Ab, Db.
@@ -1020,7 +1147,7 @@ Section PuppetOp2.
     - intros x E. inversion E; subst x. split; [exact F2|exact F3].
   Qed.
 
-  Lemma po_sleep d : SInv (fst (puppet_op s t (ASleep t d))).
+  Lemma po_sleep d : GStep s (fst (puppet_op s t (ASleep t d))).
   Proof.
     unfold puppet_op. fold sb. unfold new_fut. cbv zeta.
     set (s1 := mkSt _ _ _ _ _ _ _ _ _ _ _ _ _ _ _).
@@ -1037,30 +1164,36 @@ Section PuppetOp2.
       eapply ns_trans; [exact K1|apply ns_suspend_on; exact Lt].
   Qed.
 
-  Lemma po_hold n : SInv (fst (puppet_op s t (AHold t n))).
+  Lemma po_hold n : GStep s (fst (puppet_op s t (AHold t n))).
   Proof.
     unfold puppet_op. fold sb. apply (po_simple s t I Hidle).
-    apply ns_upd_task; [exact Lt|intros k; reflexivity|intros k; reflexivity].
+    apply ns_upd_task; [exact Lt|intros k; reflexivity|intros k; reflexivity|intros k; reflexivity].
   Qed.
 
-  Lemma po_drop : SInv (fst (puppet_op s t (ADrop t))).
+  Lemma po_drop : GStep s (fst (puppet_op s t (ADrop t))).
   Proof.
     unfold puppet_op. fold sb. apply (po_simple s t I Hidle).
-    apply ns_upd_task; [exact Lt|intros k; reflexivity|intros k; reflexivity].
+    apply ns_upd_task; [exact Lt|intros k; reflexivity|intros k; reflexivity|intros k; reflexivity].
   Qed.
 
-  Lemma po_wrap n : SInv (fst (puppet_op s t (AWrap t n))).
+  Lemma po_wrap n : GStep s (fst (puppet_op s t (AWrap t n))).
   Proof.
     unfold puppet_op. fold sb. apply (po_simple s t I Hidle).
-    apply ns_upd_task; [exact Lt|intros k; reflexivity|intros k; reflexivity].
+    apply ns_upd_task; [exact Lt|intros k; reflexivity|intros k; reflexivity|intros k; reflexivity].
   Qed.
 
   Lemma po_uncancel : SInv (fst (puppet_op s t (AUncancel t))).
   Proof.
-    unfold puppet_op. fold sb. apply (po_simple s t I Hidle). apply ns_task_uncancel.
+    unfold puppet_op. fold sb.
+    set (r := RRet (pred (k_ncancel (tasks sb t)))).
+    assert (R : Run0 [t] s (fst (ret_to_puppet (task_uncancel sb t) t r))).
+    { eapply run0_trans; [apply Rb|]. eapply run0_trans; [apply run0_n; [exact Tb|apply ns0_task_uncancel]|].
+      apply run0_n; [|apply (ns_ret [t] _ t r Lt)].
+      eapply Tree_treq; [exact Tb|apply treq_task_uncancel]. }
+    apply (sinv_actor0 s t _ I A N R); rewrite ret_ctl; try discriminate.
   Qed.
 
-  Lemma po_effdeadline : SInv (fst (puppet_op s t (AEffDeadline t))).
+  Lemma po_effdeadline : GStep s (fst (puppet_op s t (AEffDeadline t))).
   Proof.
     unfold puppet_op. fold sb. cbn [fst]. apply (sinv_park s t sb I A N Rb).
   Qed.
@@ -1090,9 +1223,13 @@ Qed.
 
 Lemma sinv_finish s t s1 o :
   SInv s -> alloc_t s t -> k_ctl (tasks s t) <> CDone -> Run [t] s s1 ->
-  (forall x, s_host (scopes s1 x) <> Some t) -> SInv (finish_task s1 t o).
+  (forall x, s_host (scopes s1 x) <> Some t) -> GStep s (finish_task s1 t o).
 Proof.
-  intros [[T C] Dv] A N [[T1 [Q R]] Dd] Hn. pose proof (treq_finish_task s1 t o) as K.
+  intros [[T C] Dv] A N [[[T1 [Q R]] Dd] Pp] Hn. pose proof (treq_finish_task s1 t o) as K.
+  split; [|apply (ids_trans s s1); [exact (ids_creq _ _ _ Q)|now apply ids_treq]].
+  split.
+  2:{ apply (pstep_trans s s1); [now apply Pp|apply pstep_inert, inert_finish_task|].
+      intros x Ax. split; [exact (cq_alloc_t _ _ _ Q x Ax)|apply (cq_ids _ _ _ Q x Ax)]. }
   split; [split; [eapply Tree_treq; eauto|]|apply D_finish; now apply Dd].
   assert (Q' : creq [t] s (finish_task s1 t o)).
   { eapply creq_trans; [exact Q|]. apply creq_finish. now left. }
@@ -1119,7 +1256,7 @@ Proof.
 Qed.
 
 Lemma sinv_puppet_finish s t v :
-  SInv s -> idle s t = true -> op_ok s (AFinish t v) = true -> SInv (fst (puppet_finish s t v)).
+  SInv s -> idle s t = true -> op_ok s (AFinish t v) = true -> GStep s (fst (puppet_finish s t v)).
 Proof.
   intros I Hidle Hok. pose proof (po_A s t Hidle) as A. pose proof (po_N s t Hidle) as N.
   pose proof (po_Lt t) as Lt.
@@ -1127,7 +1264,7 @@ Proof.
   set (raw := match k_held (tasks sb t) with Some e => OExc e | None => ORet v end).
   set (s1 := upd_task sb t (tk_final (Some raw))).
   assert (K1 : nstep [t] s s1).
-  { eapply ns_trans; [apply ns_begin_act; exact Lt|]. apply ns_upd_task; [exact Lt|intros k; reflexivity|intros k; reflexivity]. }
+  { eapply ns_trans; [apply ns_begin_act; exact Lt|]. apply ns_upd_task; [exact Lt|intros k; reflexivity|intros k; reflexivity|intros k; reflexivity]. }
   assert (R1 : Run [t] s s1) by (apply run_n; [apply I|exact K1]).
   assert (Eg : k_group (tasks sb t) = k_group (tasks s t)) by apply (tq_group _ _ (treq_begin_act s t)).
   cbn [op_ok] in Hok. rewrite Eg.
@@ -1137,9 +1274,9 @@ Proof.
     set (s2 := upd_task s1 t _). set (s3 := event_set s2 (k_hevent (tasks sb t))).
     assert (K3 : nstep [t] s s3).
     { eapply ns_trans; [exact K1|]. eapply ns_trans; [|apply ns_event_set].
-      apply ns_upd_task; [exact Lt| |]; intros k; destruct raw; reflexivity. }
+      apply ns_upd_task; [exact Lt| | |]; intros k; destruct raw; reflexivity. }
     assert (R3 : Run [t] s s3) by (apply run_n; [apply I|exact K3]).
-    pose proof (run_tree _ _ _ R3) as T3. destruct K3 as [Q3 _].
+    pose proof (run_tree _ _ _ R3) as T3. destruct K3 as [[Q3 _] _].
     destruct (run_actor_facts s s3 t (si_ctl _ I) A N R3) as [A3 D3].
     assert (Eh : k_hscope (tasks sb t) = k_hscope (tasks s3 t)).
     { rewrite (tq_hscope _ _ Q3). apply (tq_hscope _ _ (treq_begin_act s t)). }
@@ -1167,7 +1304,7 @@ Proof.
     cbn [fst]. apply (sinv_finish s t s1 raw I A N R1).
     destruct (run_actor_facts s s1 t (si_ctl _ I) A N R1) as [A1 D1].
     apply (hosts_nothing_of_base s1 t (run_tree _ _ _ R1) A1 D1).
-    destruct K1 as [Q1 _]. rewrite (tq_cur _ _ Q1), (tq_base _ _ Q1). unfold base. rewrite G.
+    destruct K1 as [[Q1 _] _]. rewrite (tq_cur _ _ Q1), (tq_base _ _ Q1). unfold base. rewrite G.
     destruct (k_cur (tasks s t)); [discriminate|reflexivity].
 Qed.
 
@@ -1198,7 +1335,7 @@ Lemma alloc_t_dec s t : alloc_t s t \/ ~ alloc_t s t.
 Proof. unfold alloc_t. lia. Qed.
 
 Lemma sinv_resume s0 t fo :
-  SInv s0 -> (forall f, fo = Some f -> k_waiter (tasks s0 t) = Some f) -> SInv (fst (resume s0 t fo)).
+  SInv s0 -> (forall f, fo = Some f -> k_waiter (tasks s0 t) = Some f) -> GStep s0 (fst (resume s0 t fo)).
 Proof.
   intros I Hfo. unfold resume.
   pose proof (incoming_ctl s0 t fo) as Ec.
@@ -1206,7 +1343,7 @@ Proof.
   assert (Hinc : fo = None -> snd (incoming s0 t fo) = None \/ exists o, snd (incoming s0 t fo) = Some (ECancel o)).
   { intros ->. apply incoming_none. }
   destruct (incoming s0 t fo) as [s inc]. cbn [fst snd] in *.
-  destruct (k_ctl (tasks s t)) eqn:Ectl; try exact I.
+  destruct (k_ctl (tasks s t)) eqn:Ectl; try (now apply gstep_refl).
   all: assert (N : k_ctl (tasks s0 t) <> CDone) by (rewrite <- Ec; discriminate).
   all: assert (A : alloc_t s0 t)
          by (destruct (alloc_t_dec s0 t) as [H|H]; [exact H|exfalso; apply N; apply (c_unalloc _ (si_ctl _ I) t H)]).
@@ -1215,14 +1352,14 @@ Proof.
   all: destruct (run_actor_facts s0 s t (si_ctl _ I) A N R0) as [As Ds].
   all: pose proof (po_Lt t) as Lt.
   all: destruct (c_ok _ (si_ctl _ I) t A) as [Knew [Kck [Ksc [_ _]]]].
-  all: destruct K0 as [Q0 _].
+  all: destruct K0 as [[Q0 _] _].
   - (* CNew *)
     symmetry in Ec. destruct (Knew Ec) as [Ecur [Egrp Ehost]].
     set (s1 := upd_task s t (tk_started true)).
-    assert (K1 : nstep [t] s s1) by (apply ns_upd_task; [exact Lt|intros k; reflexivity|intros k; reflexivity]).
+    assert (K1 : nstep [t] s s1) by (apply ns_upd_task; [exact Lt|intros k; reflexivity|intros k; reflexivity|intros k; reflexivity]).
     assert (R1 : Run [t] s0 s1).
     { eapply run_trans; [exact R0|]. apply run_n; [exact T|exact K1]. }
-    pose proof (run_tree _ _ _ R1) as T1. destruct K1 as [Q1 _].
+    pose proof (run_tree _ _ _ R1) as T1. destruct K1 as [[Q1 _] _].
     assert (Q01 : treq s0 s1) by (eapply treq_trans; eauto).
     destruct inc as [e|].
     + cbn [fst]. apply (sinv_finish s0 t s1 _ I A N R1). intros x. rewrite (tq_host _ _ Q01). apply Ehost.
@@ -1243,7 +1380,7 @@ Proof.
   - (* CIdle *)
     cbn [fst]. destruct inc as [e|]; [|now apply (sinv_park s0 t s I A N)].
     apply (sinv_park s0 t _ I A N). eapply run_trans; [exact R0|]. apply run_n; [exact T|].
-    apply ns_upd_task; [exact Lt|intros k; reflexivity|intros k; reflexivity].
+    apply ns_upd_task; [exact Lt|intros k; reflexivity|intros k; reflexivity|intros k; reflexivity].
   - (* CYield *)
     destruct k as [| |c].
     + now apply (sinv_ret s0 t s _ I A N).
@@ -1337,16 +1474,19 @@ Proof.
 Qed.
 
 (* ---------------- environment / scheduler ops ---------------- *)
-Lemma sinv_env s s' : SInv s -> nstep [] s s' -> SInv s'.
+Lemma sinv_env0 s s' : SInv s -> nstep0 [] s s' -> SInv s'.
 Proof.
-  intros [[T C] Dv] K. assert (R : Run [] s s') by (apply run_n; assumption).
+  intros [[T C] Dv] K. assert (R : Run0 [] s s') by (apply run0_n; assumption).
   destruct R as [[T' [Q _]] Dd]. split; [split; [exact T'|]|now apply Dd].
   apply (Ctl_step [] s s' C Q). intros t [].
 Qed.
 
+Lemma sinv_env s s' : SInv s -> nstep [] s s' -> GStep s s'.
+Proof. intros I [K P]. split; [split; [now apply (sinv_env0 s)|apply P, I]|apply ids_treq, K]. Qed.
+
 Lemma sinv_task_done s t :
   SInv s -> In (HTaskDone t) (ready s) ->
-  SInv (run_task_done (set_ready s (remove_first (HTaskDone t) (ready s))) t).
+  GStep s (run_task_done (set_ready s (remove_first (HTaskDone t) (ready s))) t).
 Proof.
   intros I Hin. destruct (c_td _ (si_ctl _ I) t Hin) as [A Ed].
   destruct (c_ok _ (si_ctl _ I) t A) as [_ [_ [_ [Kd _]]]]. specialize (Kd Ed).
@@ -1357,14 +1497,13 @@ Proof.
   2:{ apply (sinv_env s); [exact I|]. eapply ns_trans; [exact K1|apply ns_set_running]. }
   set (s2 := set_running s1 None).
   assert (K2 : nstep [] s s2) by (eapply ns_trans; [exact K1|apply ns_set_running]).
-  pose proof (sinv_env s s2 I K2) as [[T2 C2] D2].
-  destruct K2 as [Q2 [B2 [Rq2 _]]].
+  pose proof (sinv_env s s2 I K2) as [[[[T2 C2] D2] P2] Id2].
+  destruct K2 as [[Q2 [B2 [Rq2 _]]] _].
   assert (Hn2 : forall x, s_host (scopes s2 x) <> Some t) by (intros x; rewrite (tq_host _ _ Q2); apply Kd).
   set (s3 := td_struct s2 t g).
   pose proof (Tree_td s2 t g T2 Hn2) as T3. fold s3 in T3.
   set (s' := td_tail s3 (tasks s t) g t).
-  pose proof (ns_td_tail [] s3 (tasks s t) g t) as K4. fold s' in K4. destruct K4 as [Q4 [B4 [Rq4 Dq4]]].
-  split; [split; [eapply Tree_treq; eauto|]|apply Dq4; [now apply Tree_TreeL|now apply D_td_struct]].
+  pose proof (ns_td_tail [] s3 (tasks s t) g t) as K4. fold s' in K4. destruct K4 as [[Q4 [B4 [Rq4 Dq4]]] Pq4].
   (* fields of s3 relative to s2 *)
   assert (Eh3 : forall x, s_host (scopes s3 x) = s_host (scopes s2 x)).
   { intros x. unfold s3, td_struct. destruct (k_cur (tasks s2 t)) as [c|]; cbn; [|reflexivity].
@@ -1377,10 +1516,22 @@ Proof.
   assert (Et3 : forall x, x <> t -> tasks s3 x = tasks s2 x).
   { intros x Hx. unfold s3, td_struct. destruct (k_cur (tasks s2 t)); cbn; unfold upd;
       (deq x t; [contradiction|reflexivity]). }
+  assert (Egr3 : forall x, k_group (tasks s3 x) = k_group (tasks s2 x)).
+  { intros x. unfold s3, td_struct. destruct (k_cur (tasks s2 t)); cbn; unfold upd; deq x t; reflexivity. }
   assert (Ett : k_ctl (tasks s3 t) = CDone).
   { assert (E2 : k_ctl (tasks s2 t) = CDone) by (rewrite (tcore_ctl _ _ (B2 t (fun H => H))); exact Ed).
     unfold s3, td_struct. destruct (k_cur (tasks s2 t)); cbn [tasks upd_task set_tasks upd_group set_groups upd_scope set_scopes];
       unfold upd; rewrite Nat.eqb_refl; exact E2. }
+  assert (Id3 : ids s2 s').
+  { intros x Ax. split; [unfold alloc_t in *; now rewrite (tq_ntask _ _ Q4), C1|].
+    rewrite (tq_group _ _ Q4). apply Egr3. }
+  split; [|now apply (ids_trans s s2)].
+  split.
+  2:{ (* the potential *)
+      apply (pstep_trans s s2); [exact P2| |intros x Ax; now apply same_alloc_group].
+      apply (pstep_trans s2 s3); [apply pstep_inert, inert_td_struct|now apply Pq4|].
+      intros x Ax. split; [unfold alloc_t in *; now rewrite C1|apply Egr3]. }
+  split; [split; [eapply Tree_treq; eauto|]|apply Dq4; [now apply Tree_TreeL|now apply D_td_struct]].
   apply (Ctl_step0 [t] s s' (si_ctl _ I)).
   - constructor.
     + intros x Hx. assert (x <> t) by (intros ->; apply Hx; now left).
@@ -1415,7 +1566,7 @@ Proof.
   set (s1 := set_running (set_ready s (remove_first (HDeliver c) (ready s))) None).
   assert (K1 : treq s s1) by (eapply treq_trans; [apply treq_set_ready|apply treq_set_running]).
   pose proof (kframe_deliver_top s1 c) as K2.
-  split; [|split; [|split]].
+  split; [split; [|split; [|split]]|].
   - eapply treq_trans; [exact K1|]. eapply treq_trans; [apply kframe_treq, K2|apply treq_set_running].
   - eapply tcb_trans; [apply (tcb_same_tasks [] s s1); reflexivity|].
     eapply tcb_trans; [apply tcb_kframe, K2|apply tcb_same_tasks; reflexivity].
@@ -1423,30 +1574,39 @@ Proof.
     eapply rq_td_trans; [apply (rq_td_same _ s1); reflexivity|].
     eapply rq_td_trans; [apply rq_td_kframe, K2|apply rq_td_same; reflexivity].
   - intros T I. apply (DInv_dq (deliver_top s1 c)); [now apply D_run_deliver|apply dq_set_running].
+  - intros T. apply (pstep_trans s (deliver_top s1 c)); [apply P_run_deliver; now apply Pok_Tree|
+                                                          apply pstep_inert, inert_set_running|].
+    intros x Ax. apply same_alloc_group; [|exact Ax]. eapply treq_trans; [exact K1|apply kframe_treq, K2].
 Qed.
 
-Lemma sinv_run_handle s h : SInv s -> op_ok s (ARun h) = true -> SInv (fst (run_handle s h)).
+Lemma gstep_after s s1 s2 : SInv s -> nstep [] s s1 -> GStep s1 s2 -> GStep s s2.
+Proof.
+  intros I K [[I2 P2] D2]. destruct (sinv_env s s1 I K) as [[I1 P1] D1]. split; [|now apply (ids_trans s s1)].
+  split; [exact I2|]. apply (pstep_trans s s1 s2 P1 P2). exact D1.
+Qed.
+
+Lemma sinv_run_handle s h : SInv s -> op_ok s (ARun h) = true -> GStep s (fst (run_handle s h)).
 Proof.
   intros I Hok. unfold run_handle.
-  destruct (existsb (handle_eqb h) (ready s)) eqn:Ex; cbn [negb]; [|exact I].
+  destruct (existsb (handle_eqb h) (ready s)) eqn:Ex; cbn [negb]; [|now apply gstep_refl].
   apply existsb_handle in Ex.
   set (s1 := set_ready s (remove_first h (ready s))).
   destruct h as [t|t f|c|t|f tm|c tm].
   - assert (K1 : nstep [] s s1) by (apply ns_remove_first; intros c; discriminate).
-    apply (sinv_resume s1 t None (sinv_env s s1 I K1)). intros f E. discriminate.
+    apply (gstep_after s s1 _ I K1). apply (sinv_resume s1 t None (proj1 (proj1 (sinv_env s s1 I K1)))). intros f E. discriminate.
   - assert (K1 : nstep [] s s1) by (apply ns_remove_first; intros c; discriminate).
-    apply (sinv_resume s1 t (Some f) (sinv_env s s1 I K1)). intros f' E. inversion E; subst f'.
-    cbn [op_ok] in Hok. apply opt_eqb_true in Hok. exact Hok.
+    apply (gstep_after s s1 _ I K1). apply (sinv_resume s1 t (Some f) (proj1 (proj1 (sinv_env s s1 I K1)))).
+    intros f' E. inversion E; subst f'. cbn [op_ok] in Hok. apply opt_eqb_true in Hok. exact Hok.
   - cbn [fst]. apply (sinv_env s _ I). apply ns_run_deliver.
   - cbn [fst]. now apply sinv_task_done.
   - assert (K1 : nstep [] s s1) by (apply ns_remove_first; intros c; discriminate).
-    cbn [fst]. apply (sinv_env s1 _ (sinv_env s s1 I K1)). apply ns_fut_complete.
+    cbn [fst]. apply (gstep_after s s1 _ I K1). apply (sinv_env s1 _ (proj1 (proj1 (sinv_env s s1 I K1)))). apply ns_fut_complete.
   - assert (K1 : nstep [] s s1) by (apply ns_remove_first; intros c0; discriminate).
-    cbn [fst]. apply (sinv_env s1 _ (sinv_env s s1 I K1)).
+    cbn [fst]. apply (gstep_after s s1 _ I K1). apply (sinv_env s1 _ (proj1 (proj1 (sinv_env s s1 I K1)))).
     eapply ns_trans; [apply ns_set_running|]. eapply ns_trans; [|apply ns_set_running]. apply ns_scope_timeout.
 Qed.
 
-Lemma sinv_new_root s : SInv s -> SInv (fst (new_root s)).
+Lemma sinv_new_root s : SInv s -> GStep s (fst (new_root s)).
 Proof.
   intros [[T C] Dv]. unfold new_root. cbn [fst]. fold (root_struct s).
   set (t := ntask s). set (s1 := root_struct s).
@@ -1455,7 +1615,8 @@ Proof.
   assert (R2 : Run [t] s (set_running (park s1 t) None)).
   { eapply run_trans; [exact R1|]. apply run_n; [apply R1|].
     eapply ns_trans; [apply ns_park; exact Lt|apply ns_set_running]. }
-  destruct R2 as [[T' [Q Rq]] Dd]. split; [split; [exact T'|]|now apply Dd].
+  destruct R2 as [[[T' [Q Rq]] Dd] Pp]. split; [|exact (ids_creq _ _ _ Q)]. split; [|now apply Pp].
+  split; [split; [exact T'|]|now apply Dd].
   apply (Ctl_step [t] s _ C Q). intros t' [<-|[]].
   assert (Ec : k_ctl (tasks (set_running (park s1 t) None) t) = CIdle) by apply park_ctl.
   assert (Ed : k_tdran (tasks (set_running (park s1 t) None) t) = false).
@@ -1470,11 +1631,15 @@ Proof.
   - intros Hin. apply Rq in Hin. destruct (c_td _ C t Hin) as [[_ A0] _]. unfold t in A0. lia.
 Qed.
 
-Theorem step_inv s o : SInv s -> op_ok s o = true -> SInv (fst (step s o)).
+(* ops other than the two outside influences on the cancel counter *)
+Definition quiet (o : op) : Prop :=
+  match o with ANativeCancel _ | AUncancel _ => False | _ => True end.
+
+Theorem step_g s o : SInv s -> op_ok s o = true -> quiet o -> GStep s (fst (step s o)).
 Proof.
-  intros I Hok. unfold step. destruct (actor o) as [t|] eqn:Ea.
-  - destruct (idle s t) eqn:Hidle; cbn [negb]; [|exact I].
-    destruct o; inversion Ea; subst; try exact I.
+  intros I Hok Hq. unfold step. destruct (actor o) as [t|] eqn:Ea.
+  - destruct (idle s t) eqn:Hidle; cbn [negb]; [|now apply gstep_refl].
+    destruct o; inversion Ea; subst; try (now apply gstep_refl).
     + apply po_new_scope; assumption.
     + apply po_enter; assumption.
     + apply po_exit; assumption.
@@ -1497,16 +1662,25 @@ Proof.
     + apply po_drop; assumption.
     + apply po_wrap; assumption.
     + apply sinv_puppet_finish; assumption.
-    + apply po_uncancel; assumption.
+    + destruct Hq.
     + apply po_effdeadline; assumption.
     + apply po_failat; assumption.
-  - destruct o; try discriminate; try exact I.
+  - destruct o; try discriminate; try (now apply gstep_refl).
     + now apply sinv_new_root.
-    + cbn [fst]. apply (sinv_env s _ I). apply ns_task_cancel.
+    + destruct Hq.
     + cbn [fst]. apply (sinv_env s _ I).
       eapply ns_trans; [apply ns_set_running|]. eapply ns_trans; [|apply ns_set_running]. apply ns_scope_cancel.
     + now apply sinv_run_handle.
-    + destruct (Z.ltb dt 0); [exact I|]. cbn [fst]. apply (sinv_env s _ I). apply ns_tick.
+    + destruct (Z.ltb dt 0); [now apply gstep_refl|]. cbn [fst]. apply (sinv_env s _ I). apply ns_tick.
+Qed.
+
+Theorem step_inv s o : SInv s -> op_ok s o = true -> SInv (fst (step s o)).
+Proof.
+  intros I Hok. destruct o; try (exact (proj1 (proj1 (step_g s _ I Hok Logic.I)))).
+  - (* AUncancel *)
+    unfold step. cbn [actor]. destruct (idle s t) eqn:Hidle; cbn [negb]; [|exact I]. now apply po_uncancel.
+  - (* ANativeCancel *)
+    cbn [step actor fst]. apply (sinv_env0 s _ I). apply ns0_task_cancel.
 Qed.
 
 (* ---------------- every reachable state of the generated domain ---------------- *)
